@@ -206,6 +206,8 @@ def sample2D(
     SW = 1.0  # Sum of weights
 
     if mask is not None:
+        # Values at masked nodes (nan, fill values) must not contribute
+        F = np.where(mask > 0, F, 0.0)
         W00 = mask[J, I] * W00
         W01 = mask[J + 1, I] * W01
         W10 = mask[J, I + 1] * W10
